@@ -874,3 +874,19 @@ Example added_cdata_is_canonical :
               root_canon (lang_by_id (xt_lang t)) no_emb r = true /\
               tree_from_xml main_table (fun _ => inr 104) [60] (events_of (lang_by_id (xt_lang t)) r) true = inl t.
 Proof. split; [vm_compute; reflexivity|]. eexists. eexists. split; [vm_compute; reflexivity|]. repeat split; vm_compute; reflexivity. Qed.
+
+Lemma clause_1_necessary :
+  clause_of w1_events = 1 /\
+  tree_from_xml main_table (fun _ => inr 104) [60] w1_events true = inl (mk_xtree 1101 0 [w1_root]) /\
+  root_canon (lang_by_id 1101) no_emb w1_root = false.
+Proof. split; [exact w1_clause|exact image_not_canonical_empty_text]. Qed.
+Lemma clause_3_necessary :
+  clause_of w2_events = 3 /\
+  tree_from_xml main_table (fun _ => inr 104) [60] w2_events true = inl (mk_xtree 2402 0 [w2_root]) /\
+  root_canon (lang_by_id 2402) no_emb w2_root = false.
+Proof. split; [exact w2_clause|exact image_not_canonical_cdata_in_binary]. Qed.
+Lemma clause_9_necessary :
+  clause_of w3_events = 9 /\
+  tree_from_xml main_table (fun _ => inr 104) [60] w3_events true = inl (mk_xtree 2402 0 [w3_root]) /\
+  root_canon (lang_by_id 2402) no_emb w3_root = false.
+Proof. split; [exact w3_clause|exact image_not_canonical_data_hack]. Qed.
